@@ -34,7 +34,11 @@ def containers(v, path=(), out=None):
 
 
 def snapshot(v):
-    return codec.canon_val(v)
+    try:
+        return codec.canon_val(v)
+    except RecursionError:
+        # the object contains itself: as a snapshot that is a value no acyclic object equals
+        return ('cyclic', id(v))
 
 
 def oracle(ctx, case, jcase):
@@ -78,8 +82,29 @@ def oracle(ctx, case, jcase):
             return None
         if call == 'normalized':
             result = v.document
-    if repr(codec.canon_val(schema_src)) != schema_snap and False:
-        pass     # the schema object passed to the constructor may be expanded in place by design
+    # the validator's own previous output passed back in is a caller's document like any other
+    for call in ('normalized', 'validate', 'validate0'):
+        own = v.document
+        if not isinstance(own, dict):
+            break
+        before = snapshot(own)
+        try:
+            if call == 'normalized':
+                v.normalized(own)
+            else:
+                v.validate(own, normalize=(call == 'validate'))
+        except Exception as e:
+            ctx.dist('skipped', 'real raised ' + type(e).__name__)
+            break
+        if snapshot(own) != before:
+            ctx.fail('C05 oracle: %s modified the document passed by the caller (the validator\'s own previous output)' % call,
+                     dict(jcase, call=call, own_output=True),
+                     detail={'before': repr(before)[:600], 'after': repr(snapshot(own))[:600]})
+            return result
+        if v.document is own:
+            ctx.fail('C05 oracle: after %s of its own previous output validator.document is the very object passed in' % call,
+                     dict(jcase, call=call, own_output=True))
+            return result
     return result
 
 
